@@ -311,10 +311,24 @@ func (w *worker) freeRaw(n int, is []uint64) error {
 		if res.Cls == "ok" {
 			c.Oracle("raw-free-invalid-accepted", "free of %v on %d sectors succeeded", is, n)
 		}
-	} else if sortedDesc(is) {
+	} else {
+		// what a wire-compatible host must do with the indices in the order they were sent (the loop
+		// the proof format of core's BuildFreeSectorsProof / VerifyFreeSectorsProof is defined by):
+		// slot n takes the i-th root from the end, then the tail is cut.  For a strictly descending list
+		// this is the swap-remove list model.
 		expect = append([]int(nil), w.cur...)
-		for _, i := range is {
-			expect = swapRemove(expect, int(i))
+		for i, n := range is {
+			expect[n] = expect[len(expect)-i-1]
+		}
+		expect = expect[:len(expect)-len(is)]
+		if sortedDesc(is) {
+			seq := append([]int(nil), w.cur...)
+			for _, i := range is {
+				seq = swapRemove(seq, int(i))
+			}
+			if !eqInts(seq, expect) {
+				c.Oracle("harness-list-models-disagree", "batch %v vs sequential %v", expect, seq)
+			}
 		}
 	}
 	w.check(c, "free", "raw", before, res, res.Cls != "ok", expect)
